@@ -100,6 +100,8 @@ def ensure_facts(config="default", repo=None):
         cmd = ["cargo", "+nightly", "check", "--offline", "--workspace"]
         if config == "all":
             cmd.append("--all-features")
+        elif config == "wat":
+            cmd += ["--features", "wat"]
         t0 = time.time()
         log("[engine] extracting facts (%s) from %s" % (config, repo))
         r = subprocess.run(cmd, cwd=repo, env=env, stdout=subprocess.PIPE, stderr=subprocess.STDOUT, text=True)
